@@ -11,6 +11,10 @@
 From Coq Require Import List Arith Bool Lia NArith.
 Import ListNotations.
 From Verif Require Export C08.Base.
+From Verif Require Import Gen.Tables.
+
+(** A generated table entry that is a yes/no fact about the source (1 = yes). *)
+Definition tbl_flag (n : N) : bool := N.eqb n 1.
 
 Section Model.
   Context {A : Type}.
@@ -97,21 +101,28 @@ Section Model.
     end.
 
   (** The `arities` attribute: its integer members (as a list: the code has a set) and whether
-      the keyword :rest is a member.  _basilisp_fn gets `(fixed..., rest_fixed, :rest)`;
-      _update_signature_for_partial keeps :rest, keeps `a - n` for the integers `a > n`, and,
-      only if the new set is EMPTY, adds 0 when `n` was a member. *)
-  Fixpoint arities (c : callee) : list nat * bool :=
+      the keyword :rest is a member.  _basilisp_fn gets `(fixed..., rest_fixed, :rest)`.
+      _update_signature_for_partial keeps :rest and
+        [ge = true]  (the code after repair F-08c) `a - n` for the integers `a >= n`;
+        [ge = false] (the code before) `a - n` for `a > n`, and, only if the new set is EMPTY,
+                     0 when `n` was a member.
+      Which of the two the working tree has is re-derived on every run ([arity_partial_cmp]). *)
+  Fixpoint arities_gen (ge : bool) (c : callee) : list nat * bool :=
     match c with
     | CFn s => (all_counts s, is_variadic s)
     | CPartial c' pa =>
-        let '(ints, r) := arities c' in
+        let '(ints, r) := arities_gen ge c' in
         let p := length pa in
-        let new := map (fun a => a - p) (filter (fun a => p <? a) ints) in
-        match new, r with
-        | [], false => (if existsb (Nat.eqb p) ints then [0] else [], false)
-        | _, _ => (new, r)
-        end
+        if ge then (map (fun a => a - p) (filter (fun a => p <=? a) ints), r)
+        else
+          let new := map (fun a => a - p) (filter (fun a => p <? a) ints) in
+          match new, r with
+          | [], false => (if existsb (Nat.eqb p) ints then [0] else [], false)
+          | _, _ => (new, r)
+          end
     end.
+
+  Definition arities : callee -> list nat * bool := arities_gen (tbl_flag arity_partial_cmp).
 
   (** the `max_fixed_arity` captured by the callable's `apply_to` closure *)
   Definition apply_M (c : callee) : nat := lmax (fst (arities c)).
@@ -171,29 +182,37 @@ Arguments callee : clear implicits.
       if not self._has_varargs: return self._args
       try:
           final = self._args[-1]
+          if final is None: return self._args[:-1]          # only after repair F-08a [nil_drops]
           if isinstance(final, ISeq): return tuple(itertools.chain(self._args[:-1], final))
           return self._args
       except IndexError: return ()
     [None] = the chain over an infinite seq never returns. *)
-Definition tramp_args (has_varargs : bool) (vs : list rval) : option (list rval) :=
+Definition tramp_args_gen (nil_drops has_varargs : bool) (vs : list rval) : option (list rval) :=
   if negb has_varargs then Some vs
   else match rev vs with
        | [] => Some []
+       | VNil :: ri => if nil_drops then Some (rev ri) else Some vs
        | VSeq l :: ri => Some (rev ri ++ map VAtom l)
        | VInf :: _ => None
        | _ => Some vs
        end.
 
 (** `(recur e1 .. en)` inside arity [ar] of a fn with signature [s]: the body returns
-    `_TrampolineArgs(node.is_variadic, v1..vn)` -- the flag is that of the WHOLE fn
-    (generator.py: `new_recur_point(arity.loop_id, RecurType.FN, is_variadic=node.is_variadic)`),
-    and `_trampoline`'s loop calls the ARITY function (the decorated def, not the dispatcher)
-    with `ret.args`. *)
-Definition recur_step (s : sig) (ar : arity) (vs : list rval) : result rval :=
-  match tramp_args (is_variadic s) vs with
+    `_TrampolineArgs(flag, v1..vn)` and `_trampoline`'s loop calls the ARITY function (the
+    decorated def, not the dispatcher) with `ret.args`.  The flag is
+      [per_arity = true]  (after repair F-08b) that of the arity the recur is in,
+      [per_arity = false] (before) that of the WHOLE fn: generator.py had
+                          `new_recur_point(arity.loop_id, RecurType.FN, is_variadic=node.is_variadic)`. *)
+Definition recur_step_gen (per_arity nil_drops : bool) (s : sig) (ar : arity) (vs : list rval) : result rval :=
+  let flag := if per_arity then match ar with ARest _ => true | AFix _ => false end else is_variadic s in
+  match tramp_args_gen nil_drops flag vs with
   | None => RDiverge
   | Some args => call_arity ar (map PV args)
   end.
+
+(** the working tree's variant, re-derived on every run *)
+Definition recur_step : sig -> arity -> list rval -> result rval :=
+  recur_step_gen (tbl_flag arity_recur_flag) (tbl_flag arity_tramp_nil).
 
 (** ------------------------------------------------------------------------------------
     Python stack depth.  A frame per active Python function. *)
